@@ -28,7 +28,39 @@ TITLES = {
 }
 
 # id -> dict(text, note, technique, design_ref)
+SHELL_NOTE = ("Trusted: Lean kernel; axioms propext/Classical.choice/Quot.sound; harness + Float driver (IEEE equality of Lean's compiled Float "
+              "and NumPy arithmetic, exact hex I/O). Modelled as oracles, not verified: the numerical kernels seen from the driver "
+              "(get_cauchy_point+subspace_minimization = xbar), SciPy's DCSRCH stepper, SciPy's approx_derivative. Objectives finite "
+              "on the box (runs in which the user's functions overflow are outside the quantifier and skipped).")
+SHELL_TECH = "Lean 4 proof (loop invariants by induction on fuel, uninterpreted arithmetic) + bit-exact trace replay of the real run through the model + property monitor on the real run"
+
 CHECKS = {
+    "C02": dict(
+        text="Theorem evals_in_box over Model/Shell.lean: for every user objective/gradient/callback, every kernel and stepper oracle, every "
+             "configuration, every point in the call log, every callback state and the result lie in the box; fixed_never_move. No law of "
+             "arithmetic is used, so rounding is covered. Bound to main.py/linesearch.py/scalar_function.py by bit-exact replay of recorded "
+             "runs through the model, and the points the real run hands to the user are checked with exact comparisons.",
+        note=SHELL_NOTE + " Finite-difference stencil points: under the approx_derivative contract (monitored).",
+        technique=SHELL_TECH, design_ref="DESIGN.md §4 C02"),
+    "C03": dict(
+        text="Theorems ls_strict_decrease (any DCSRCH answers, any cap: the returned step's objective value is strictly below the start or the "
+             "search fails), accepted_monotone (start, callback states, result form a non-increasing list), failed_ls_keeps_x, result_le_start; "
+             "tied to the code by bit-exact trace replay; the sequence of objective values of real runs is monitored.",
+        note=SHELL_NOTE + " Fixed objective (no update_fun_def).",
+        technique=SHELL_TECH, design_ref="DESIGN.md §4 C03"),
+    "C04": dict(
+        text="Theorems message_documented, report_truthful (each message against the returned state), success_iff, nit_bound, nfev_bound, "
+             "criteria_called_once, thresholds — for all user callables, oracles and configurations incl. restarts with maxiter below the "
+             "checkpoint's nit; tied by bit-exact trace replay over the configuration lattice and restart chains; messages of real runs are "
+             "cross-checked against the returned state.",
+        note=SHELL_NOTE, technique=SHELL_TECH, design_ref="DESIGN.md §4 C04"),
+    "C05": dict(
+        text="Theorems result_coherent / callback_coherent (fun = F(x)*scale, jac = grad(x)*scale as terms, using only a*1=a), counters_eq_log, "
+             "result_is_ok_checkpoint (chains of restarts by induction); tied by bit-exact trace replay (incl. restart chains, all gradient modes); "
+             "fun/jac of real results recomputed from the harness's closures and compared bit for bit, counters compared with the call log. "
+             "Known finding K1 (checkpoint + scaler) excluded by hypothesis and reported as KNOWN-FINDING.",
+        note=SHELL_NOTE + " No update_fun_def (C13 covers it).",
+        technique=SHELL_TECH, design_ref="DESIGN.md §4 C05"),
     "C15": dict(
         text="Lean 4 theorems over Model/SF.lean for all histories, all user functions, any linear order with "
              "uninterpreted arithmetic (sf_refines: refinement to a stateless spec; no_reeval; counters_eq_calls; "
